@@ -309,6 +309,10 @@ func c16Special(t *engine.T) {
  return t } %><%= z() %>|<%= t %>`, "inner|outer"},
 		{"higher-order apply", `<% let f = fn(a) { return a + "x" } %><% let apply = fn(g, v) { return g(v) } %><%= apply(f, "A") %>|<%= apply(f, apply(f, b)) %>`, "Ax|Axx"},
 		{"stored in let", `<% let f = fn(a) { return a + "x" } %><% let g = f %><%= g("A") %>`, "Ax"},
+		{"text before return, emitted at top level", `<% let f = fn(a) { %>T<%= a %><% return "r" } %>[<%= f("1") %>]`, "[T1r]"},
+		{"text before return, emitted inside blocks", `<% let f = fn(a) { %>T<%= a %><% return "r" } %><%= if (true) { %>A<%= f("1") %>B<% } %>|<%= for (v) in [1, 2] { %>(<%= f("2") %>)<% } %>|<% let g = fn() { %>g<%= f("3") %>h<% } %><%= g() %>`, "AT1rB|(T2r)(T2r)|gT3rh"},
+		{"text before return, called silently", `<% let f = fn() { %>T<% return "r" } %><%= if (true) { %>A<% f() %>B<% let z = f() %>C<% } %>D`, "ABCD"},
+		{"return inside nested blocks with text", `<% let f = fn(a) { %>x<% if (a) { %>y<% return "1" } %>z<% return "2" } %><%= f(true) %>|<%= f(false) %>`, "xy1|xz2"},
 		{"apply with two different functions", `<% let f1 = fn(a) { return a + "1" } %><% let f2 = fn(a) { return a + "2" } %><% let apply = fn(g, v) { return g(v) } %><%= apply(f1, "A") %>|<%= apply(f2, "A") %>|<%= apply(f1, apply(f2, "B")) %>`, "A1|A2|B21"},
 		{"rebound function variable", `<% let h = fn(a) { return "p" + a } %><%= h("1") %><% h = fn(a) { return "q" + a } %>|<%= h("1") %><% let k = h %>|<%= k("2") %>`, "p1|q1|q2"},
 		{"parameter named like a defined function", `<% let f = fn(a) { return "outer" + a } %><% let call = fn(f, v) { return f(v) } %><% let other = fn(a) { return "param" + a } %><%= call(other, "1") %>|<%= f("2") %>|<%= call(f, "3") %>`, "param1|outer2|outer3"},
